@@ -6,8 +6,10 @@ patch="$1"; shift
 if [ -n "$(git -C /repo status --porcelain --untracked-files=no)" ]; then echo "/repo has uncommitted tracked changes: commit them first"; exit 2; fi
 scratch=$(mktemp -d /var/tmp/kvc-seedrun-XXXXXX)
 cp /verif/known_findings.json /verif/sweep_baseline.json "$scratch"/ 2>/dev/null
+cp -r /verif/bounded "$scratch"/ 2>/dev/null
+mkdir -p "$scratch/replay" && cp -r /verif/replay/templates "$scratch/replay/" 2>/dev/null
 git -C /repo apply "$patch" || { echo "patch does not apply"; rm -rf "$scratch"; exit 2; }
-for p in "$@"; do (cd /verif && ./bin/kvc check -property "$p" -tier quick -verif "$scratch" 2>&1 | grep "failed obligation\|VIOLATION\|KNOWN\|quick:" | cut -c1-220); done
+for p in "$@"; do (cd /verif && ./bin/kvc check -property "$p" -tier quick -verif "$scratch" 2>&1 | grep "failed obligation\|failed bounded\|VIOLATION\|KNOWN\|quick:" | cut -c1-220); done
 git -C /repo apply -R "$patch"
 rm -rf "$scratch"
 git -C /repo status --porcelain --untracked-files=no | head -3
